@@ -37,13 +37,13 @@ Keep == UNCHANGED <<nodes, votes, bal, just, fin, pin, detached, nilsink>>
 
 ---------------------------------------------------------------------------
 (* queries: reply e.ret allowed in the current state *)
-QueryOK(e, c) ==
+QueryOK(e, c, lg) ==
     LET r == e.ret
         gotRef == <<B(r.ok), <<r.root, r.slot>>>>
-    IN CASE e.q = "Head" -> gotRef = HeadOf(c)
-         [] e.q = "FindHead" -> gotRef = FindHeadOf(c, <<e.anchor, e.slot>>)
+    IN CASE e.q = "Head" -> gotRef = HeadOf(c, lg)
+         [] e.q = "FindHead" -> gotRef = FindHeadOf(c, <<e.anchor, e.slot>>, lg)
          [] e.q = "CanonicalChain" ->
-              LET exp == CanonChainOf(c, <<e.anchor, e.slot>>) IN
+              LET exp == CanonChainOf(c, <<e.anchor, e.slot>>, lg) IN
               /\ B(r.ok) = exp[1]
               /\ exp[1] => /\ Len(r.chain) = Len(exp[2])
                            /\ \A i \in DOMAIN r.chain :
@@ -58,8 +58,8 @@ QueryOK(e, c) ==
          [] e.q = "Search" ->
               IF e.usepar = 0 /\ e.useslot = 0
               THEN /\ Len(r.canon) = Cardinality(ToSet(r.canon)) /\ Len(r.non) = Cardinality(ToSet(r.non))
-                   /\ HeadSearchOK(c, <<e.anchor, e.slot>>, B(r.ok), ToSet(r.canon), ToSet(r.non))
-              ELSE LET exp == SearchOf(c, <<e.anchor, e.slot>>, B(e.usepar), e.parent, B(e.useslot), e.fe) IN
+                   /\ HeadSearchOK(c, <<e.anchor, e.slot>>, B(r.ok), ToSet(r.canon), ToSet(r.non), lg)
+              ELSE LET exp == SearchOf(c, <<e.anchor, e.slot>>, B(e.usepar), e.parent, B(e.useslot), e.fe, lg) IN
                    /\ B(r.ok) = exp[1]
                    /\ exp[1] => ToSet(r.canon) = exp[2] /\ ToSet(r.non) = exp[3]
                                 /\ Len(r.canon) = Cardinality(exp[2]) /\ Len(r.non) = Cardinality(exp[3])
@@ -69,25 +69,31 @@ QueryOK(e, c) ==
          [] OTHER -> FALSE
 
 QueryExpected(e, c) ==
-    CASE e.q = "Head" -> HeadOf(c)
-      [] e.q = "FindHead" -> FindHeadOf(c, <<e.anchor, e.slot>>)
-      [] e.q = "CanonicalChain" -> CanonChainOf(c, <<e.anchor, e.slot>>)
+    CASE e.q = "Head" -> HeadOf(c, FALSE)
+      [] e.q = "FindHead" -> FindHeadOf(c, <<e.anchor, e.slot>>, FALSE)
+      [] e.q = "CanonicalChain" -> CanonChainOf(c, <<e.anchor, e.slot>>, FALSE)
       [] e.q = "InSubtree" -> InSubtreeOf(c, e.anchor, e.root)
       [] e.q = "ClosestToSlot" -> ClosestOf(e.anchor, e.slot)
       [] e.q = "CanonAtSlot" -> CanonAtAllowed(c, e.anchor, e.slot, B(e.withblock))
       [] e.q = "GetSlot" -> GetSlotOf(e.root)
       [] e.q = "Search" -> IF e.usepar = 0 /\ e.useslot = 0 THEN "head search (loose)"
-                           ELSE SearchOf(c, <<e.anchor, e.slot>>, B(e.usepar), e.parent, B(e.useslot), e.fe)
+                           ELSE SearchOf(c, <<e.anchor, e.slot>>, B(e.usepar), e.parent, B(e.useslot), e.fe, FALSE)
       [] e.q = "Justified" -> just
       [] e.q = "Finalized" -> fin
       [] e.q = "Pin" -> pin
       [] OTHER -> "?"
 
+\* listed sequential finding fc-gap-start (C09/C11): a head search started at a gap-slot node may answer by the
+\* legacy start rule; for linearization a head-dependent reply is explained if it equals either value
+GapDev == "fc-gap-start" \in KnownDeviations
+
 ObsOK(e) ==
     LET o == e.obs IN
     /\ ToSet(o.nodes) = Keys /\ Len(o.nodes) = Cardinality(Keys)
     /\ o.just = <<just.epoch, just.root>> /\ o.fin = <<fin.epoch, fin.root>> /\ o.pin = pin
-    /\ (o.hashead = 0 \/ <<B(o.head[1]), <<o.head[2], o.head[3]>>>> = HeadOf(Ctx))
+    /\ (\/ o.hashead = 0
+        \/ <<B(o.head[1]), <<o.head[2], o.head[3]>>>> = HeadOf(Ctx, FALSE)
+        \/ GapDev /\ <<B(o.head[1]), <<o.head[2], o.head[3]>>>> = HeadOf(Ctx, TRUE))
 
 ---------------------------------------------------------------------------
 (* the call phase of line i; sets ph', cur' *)
@@ -141,7 +147,7 @@ Apply(i) ==
                       /\ IF fin # f THEN ph' = "prune" /\ cur' = i ELSE StayCall
        [] e.ev = "Query" ->
             /\ nodes # <<>>
-            /\ QueryOK(e, Ctx)
+            /\ LET c == Ctx IN QueryOK(e, c, FALSE) \/ (GapDev /\ QueryOK(e, c, TRUE))
             /\ Keep /\ StayCall
        [] e.ev = "Obs" ->
             /\ nodes # <<>>
@@ -159,7 +165,7 @@ ReportOK(e, P, canon, k) ==
        ELSE e.ret.ok = 0 /\ Len(rep) = k /\ ToSet(rep) \subseteq expSet /\ Cardinality(ToSet(rep)) = k
 Removed(e, P, k) ==
     IF nilsink \/ k = 0 \/ k > Cardinality(P) THEN P
-    ELSE {<<e.pruned[i][1], e.pruned[i][2]>> : i \in 1..(k - 1)}
+    ELSE {<<e.pruned[i][1], e.pruned[i][2]>> : i \in 1..(IF Len(e.pruned) >= k THEN k - 1 ELSE Len(e.pruned))} \cap P
 
 PrunePhase ==
     /\ ph = "prune"
@@ -219,7 +225,7 @@ Expected(i) ==
          [] e.ev = "SetPin" -> SetPinReply(e.root, e.slot)
          [] e.ev = "UpdateJustified" -> UJClass(Ctx, e.trigger, CPRec(e.j), CPRec(e.f), B(e.balerr))
          [] e.ev = "Query" -> QueryExpected(e, Ctx)
-         [] e.ev = "Obs" -> <<Keys, just, fin, pin, HeadOf(Ctx)>>
+         [] e.ev = "Obs" -> <<Keys, just, fin, pin, HeadOf(Ctx, FALSE)>>
          [] OTHER -> "?"
 
 DiagInv ==
